@@ -124,7 +124,13 @@ def run_relabelled(ctx, prog, fn, old_id, new_id):
         f = ctx.findings.pop(k)
         if f.rule == old_id:
             f.rule = new_id
-        ctx.findings[f.key()] = f
+        prev = ctx.findings.get(f.key())
+        if prev is not None:
+            for c in f.configs:
+                if c not in prev.configs:
+                    prev.configs.append(c)
+        else:
+            ctx.findings[f.key()] = f
     if old_id in ctx.rule_texts:
         ctx.rule_texts[new_id] = ctx.rule_texts.pop(old_id)
     if old_id in ctx.rule_sites:
